@@ -648,6 +648,30 @@ fn c12_add_and_drop() {
     }
 }
 
+// (b') drop order: the instance goes first, a surviving handle keeps adding, then the handle goes ("every sequence of
+// new / add_signal / clone-handle / drop calls"): whatever was registered through the handle is removed as well
+#[kani::proof]
+#[kani::unwind(6)]
+#[kani::stub(signal_hook_registry::register_sigaction, register_sigaction_stub)]
+#[kani::stub(signal_hook_registry::unregister, unregister_stub)]
+fn c12_handle_outlives() {
+    lm::link();
+    let sd = SignalDelivery::with_pipe(Fd(RFD), Fd(WFD), SignalOnly, (&[] as &[c_int]).iter()).unwrap();
+    let h = sd.handle();
+    let h2 = h.clone();
+    drop(sd);
+    let sig: c_int = kani::any();
+    kani::assume(!rejected_by_panic(sig));
+    unsafe { two_adds(&h, sig) };
+    let registered = unsafe { KEPT };
+    drop(h);
+    drop(h2);
+    unsafe {
+        assert!(UNREG_CALLS == registered, "C12.DROP-ALL: once the instance and all its handles are gone every registration it made has been removed - also one made through a handle that outlived the instance");
+        kani::cover!(registered == 1, "C12.cover: registration through a surviving handle torn down");
+    }
+}
+
 // (c) constructor: the first failing signal aborts construction and what was registered is removed
 #[kani::proof]
 #[kani::unwind(6)]
